@@ -1,9 +1,14 @@
 #!/bin/bash
-# try_seeded.sh <seeded-name> <prop> [<prop>...]: apply the seeded change to /repo, run the checks, undo it.
+# try_seeded.sh <seeded-name> <prop> [<prop>...]
+# Applies the seeded change to a SCRATCH worktree of /repo (never to /repo itself while other work is going on),
+# runs the checks against it (VERIF_REPO), removes the worktree.  For the final confirmation on /repo itself
+# use: git -C /repo apply seeded/<name>/patch.diff; ./check <prop>; git -C /repo checkout -- .
 name=$1; shift
-git -C /repo apply /verif/seeded/$name/patch.diff || { echo "cannot apply $name"; exit 2; }
-trap 'git -C /repo checkout -- . ' EXIT
+wt=/tmp/mutrepo-$$
+git -C /repo worktree add -q --detach $wt HEAD || exit 2
+trap 'git -C /repo worktree remove --force '$wt' 2>/dev/null' EXIT
+git -C $wt apply /verif/seeded/$name/patch.diff || { echo "cannot apply $name"; exit 2; }
 for p in "$@"; do
-  out=$(cd /verif && ./check $p 2>&1 | grep -E "^(VIOLATION|OK|KNOWN)" | head -3)
+  out=$(cd /verif && VERIF_REPO=$wt ./check $p 2>&1 | grep -E "^(VIOLATION|OK|KNOWN)" | head -3)
   echo "$name $p: $out"
 done
